@@ -21,6 +21,7 @@ import (
 	"fmt"
 	"os"
 	"runtime"
+	"runtime/pprof"
 	"sort"
 	"sync"
 	"time"
@@ -49,6 +50,8 @@ type aReplay struct {
 	Lenient bool        `json:"lenient,omitempty"`
 	Label   string      `json:"label,omitempty"`
 	Value   interface{} `json:"value,omitempty"`
+	Full    bool        `json:"full,omitempty"`
+	DomIdx  int         `json:"domain_index,omitempty"`
 	ID      uint64      `json:"id,omitempty"`
 	Len     int         `json:"len,omitempty"`
 	Raw     string      `json:"raw,omitempty"`
@@ -61,7 +64,7 @@ type harness struct {
 }
 
 // report confirms a failing case (3 runs, same verdict) and records it.
-func (h *harness) report(sub string, cmd string, c rw.Ctx, label, id string, fs []finding, rerun func() []finding, rp aReplay) {
+func (h *harness) report(sub string, cmd string, c rw.Ctx, label, id string, fs []finding, rerun func() []finding, mkrp func() aReplay) {
 	if len(fs) == 0 {
 		return
 	}
@@ -70,6 +73,7 @@ func (h *harness) report(sub string, cmd string, c rw.Ctx, label, id string, fs 
 			h.r.Broken("verdict flipped for %s/%s pver=%d %s %s: %q vs %q", sub, cmd, c.Pver, encName(c), label, kindsOf(fs), kindsOf(again))
 		}
 	}
+	rp := mkrp()
 	for _, f := range fs {
 		cls := sub + "/" + cmd + "/" + f.kind
 		h.mu.Lock()
@@ -81,8 +85,28 @@ func (h *harness) report(sub string, cmd string, c rw.Ctx, label, id string, fs 
 			continue
 		}
 		key := fmt.Sprintf("a/%s/%s/%s/pver=%d/%s/%s#%s", sub, cmd, f.kind, c.Pver, encName(c), label, id)
+		if rp.Net != 0 {
+			key += fmt.Sprintf("/net=%08x", rp.Net)
+		}
+		if f.kind == "read-unknown-command" {
+			// one call site, one stable key: the command is missing from
+			// the reader's table whatever the version, network or encoding
+			key = fmt.Sprintf("a/framing/%s/read-unknown-command", cmd)
+		}
 		h.r.Violation(key, fmt.Sprintf("%s %q pver=%d enc=%s value %s#%s: %s", sub, cmd, c.Pver, encName(c), label, id, f.what), rp)
 	}
+}
+
+// valueReplay: small values are stored in the replay file, big ones by their
+// position in the (deterministic) domain.
+func (h *harness) valueReplay(sub string, vc *valCase, c rw.Ctx, net uint32) aReplay {
+	rp := aReplay{Part: "a", Sub: sub, Cmd: vc.cmd, Pver: c.Pver, Witness: c.Witness, Net: net, Lenient: vc.lenient, Label: vc.label}
+	if vc.big {
+		rp.Full, rp.DomIdx = h.r.Thorough(), vc.di
+	} else {
+		rp.Value = recToJSON(vc.v)
+	}
+	return rp
 }
 
 func ctxsFor(vc *valCase) []rw.Ctx {
@@ -108,14 +132,23 @@ func ctxsFor(vc *valCase) []rw.Ctx {
 	return out
 }
 
-func valueID(vc *valCase) string {
-	b, _ := rw.Encode(rw.ByCmd(vc.cmd).Fields, vc.v, rw.Ctx{Pver: latest, Witness: true})
+func valueID(vc *valCase, idx int) string {
+	if vc.big {
+		return fmt.Sprintf("big%d", idx)
+	}
+	b := rw.EncodeBytes(rw.ByCmd(vc.cmd).Fields, vc.v, rw.Ctx{Pver: latest, Witness: true})
 	return hash8(b)
 }
 
-func (h *harness) runValueCase(vc *valCase) {
+func (h *harness) runValueCase(vc *valCase, idx int) {
 	r := h.r
-	id := valueID(vc)
+	if vc.v == nil && vc.gen != nil {
+		// build the big value for the duration of this case only
+		cp := *vc
+		cp.v = vc.gen()
+		vc = &cp
+	}
+	id := valueID(vc, idx)
 	m := rw.ByCmd(vc.cmd)
 	for _, c := range ctxsFor(vc) {
 		c := c
@@ -128,10 +161,10 @@ func (h *harness) runValueCase(vc *valCase) {
 		}
 		if len(fs) > 0 {
 			h.report("value", vc.cmd, c, vc.label, id, fs, func() []finding { return checkValue(vc, c) },
-				aReplay{Part: "a", Sub: "value", Cmd: vc.cmd, Pver: c.Pver, Witness: c.Witness, Lenient: vc.lenient, Label: vc.label, Value: recToJSON(vc.v)})
+				func() aReplay { return h.valueReplay("value", vc, c, 0) })
 		}
 		if r.WantSample() && vc.seed && c.Pver == latest {
-			b, _ := rw.Encode(m.Fields, vc.v, c)
+			b := rw.EncodeBytes(m.Fields, vc.v, c)
 			r.Sample(map[string]interface{}{"part": "a", "cmd": vc.cmd, "pver": c.Pver, "enc": encName(c), "bytes": short(b)})
 		}
 	}
@@ -164,7 +197,7 @@ func (h *harness) runValueCase(vc *valCase) {
 			r.Nontrivial(fmt.Sprintf("f|%s|%d|%v|%x|%s", vc.cmd, c.Pver, c.Witness, uint32(net), id))
 			if len(fs) > 0 {
 				h.report("framing", vc.cmd, c, vc.label, id, fs, func() []finding { return checkFraming(vc, c, net) },
-					aReplay{Part: "a", Sub: "framing", Cmd: vc.cmd, Pver: c.Pver, Witness: c.Witness, Net: uint32(net), Lenient: vc.lenient, Label: vc.label, Value: recToJSON(vc.v)})
+					func() aReplay { return h.valueReplay("framing", vc, c, uint32(net)) })
 			}
 		}
 	}
@@ -177,14 +210,14 @@ func (h *harness) runValueCase(vc *valCase) {
 		r.Trace(1)
 		r.Add("a_tx_api_cases", 1)
 		h.report("txapi", "tx", rw.Ctx{Witness: true}, vc.label, id, fs, func() []finding { return checkTxExtras(t) },
-			aReplay{Part: "a", Sub: "txapi", Cmd: "tx", Label: vc.label, Value: recToJSON(vc.v)})
+			func() aReplay { return h.valueReplay("txapi", vc, rw.Ctx{}, 0) })
 	case "block":
 		fs := checkBlockExtras(vc.v)
 		r.Eval(1)
 		r.Trace(1)
 		r.Add("a_block_api_cases", 1)
 		h.report("blockapi", "block", rw.Ctx{Witness: true}, vc.label, id, fs, func() []finding { return checkBlockExtras(vc.v) },
-			aReplay{Part: "a", Sub: "blockapi", Cmd: "block", Label: vc.label, Value: recToJSON(vc.v)})
+			func() aReplay { return h.valueReplay("blockapi", vc, rw.Ctx{}, 0) })
 	}
 }
 
@@ -202,7 +235,7 @@ func (h *harness) runAddrV2Spec() {
 			h.r.Add("a_addrv2_netid_length_cases", 1)
 			h.r.Nontrivial("addrv2spec|" + desc)
 			h.report("addrv2spec", "addrv2", c, desc, "", fs, func() []finding { f, _ := checkAddrV2Spec(id, l, c); return f },
-				aReplay{Part: "a", Sub: "addrv2spec", Cmd: "addrv2", Pver: c.Pver, ID: id, Len: l})
+				func() aReplay { return aReplay{Part: "a", Sub: "addrv2spec", Cmd: "addrv2", Pver: c.Pver, ID: id, Len: l} })
 		}
 	}
 }
@@ -283,11 +316,11 @@ func sizedTx(kind, total int) (wire.Message, []byte) {
 		}
 	}
 	set(1)
-	b, _ := rw.EncodeTx(t, true)
+	b := rw.EncodeTxBytes(t, true)
 	n := total - len(b) + 1
 	for {
 		set(n)
-		b, _ = rw.EncodeTx(t, true)
+		b = rw.EncodeTxBytes(t, true)
 		if len(b) == total {
 			break
 		}
@@ -299,13 +332,13 @@ func sizedTx(kind, total int) (wire.Message, []byte) {
 func scriptTotalTx(total int) (wire.Message, []byte) {
 	half := total / 2
 	t := txRec(1, []Rec{txin(h0, 0, make([]byte, half), 0, nil)}, []Rec{txout(0, make([]byte, total-half))}, 0)
-	b, _ := rw.EncodeTx(t, false)
+	b := rw.EncodeTxBytes(t, false)
 	return txToWire(t), b
 }
 
 func manyTxBlock(n int) (wire.Message, []byte) {
 	blk := &wire.MsgBlock{Header: headerToWire(hdrDom[0])}
-	hb, _ := rw.Encode(rw.HeaderFields, hdrDom[0], rw.Ctx{})
+	hb := rw.EncodeBytes(rw.HeaderFields, hdrDom[0], rw.Ctx{})
 	b := append([]byte(nil), hb...)
 	b = append(b, rw.CompactSize(uint64(n))...)
 	txs := make([]wire.MsgTx, n)
@@ -434,7 +467,16 @@ func replay(r *ev.Run, h *harness, tmp string) {
 	var fs []finding
 	switch rp.Sub {
 	case "value", "framing", "txapi", "blockapi":
-		v := recFromJSON(rp.Value).(Rec)
+		var v Rec
+		if rp.Value != nil {
+			v = recFromJSON(rp.Value).(Rec)
+		} else {
+			d := domain(rp.Cmd, rp.Full, true)
+			if rp.DomIdx >= len(d) || d[rp.DomIdx].gen == nil {
+				r.Broken("replay: no big value %d in the domain of %s", rp.DomIdx, rp.Cmd)
+			}
+			v = d[rp.DomIdx].gen()
+		}
 		vc := &valCase{cmd: rp.Cmd, v: v, lenient: rp.Lenient, label: rp.Label}
 		switch rp.Sub {
 		case "value":
@@ -466,7 +508,11 @@ func replay(r *ev.Run, h *harness, tmp string) {
 		r.Broken("unknown replay sub %q", rp.Sub)
 	}
 	for _, f := range fs {
-		r.Violation(fmt.Sprintf("a/%s/%s/%s/replay", rp.Sub, rp.Cmd, f.kind), f.what, rp)
+		key := fmt.Sprintf("a/%s/%s/%s/replay", rp.Sub, rp.Cmd, f.kind)
+		if f.kind == "read-unknown-command" {
+			key = fmt.Sprintf("a/framing/%s/read-unknown-command", rp.Cmd)
+		}
+		r.Violation(key, f.what, rp)
 	}
 }
 
@@ -527,22 +573,41 @@ func main() {
 	wg.Add(1)
 	go func() {
 		defer wg.Done()
+		if os.Getenv("C08_SKIP_B") != "" {
+			return
+		}
 		perDec = runWorkers(r, full, nWorkers, tmp)
 	}()
+	if pf := os.Getenv("C08_PROF"); pf != "" {
+		f, _ := os.Create(pf)
+		pprof.StartCPUProfile(f)
+		defer pprof.StopCPUProfile()
+	}
 
 	// part (a)
 	var cases []*valCase
 	perCmd := map[string]int{}
 	for _, cmd := range allCmds {
-		d := domain(cmd, full)
+		d := domain(cmd, full, true)
 		perCmd[cmd] = len(d)
 		for i := range d {
+			d[i].di = i
 			cases = append(cases, &d[i])
 		}
 	}
 	// big first (longest jobs first)
 	sort.SliceStable(cases, func(i, j int) bool { return cases[i].big && !cases[j].big })
-	ev.Par(len(cases), ncpu-nWorkers, func(i int) { h.runValueCase(cases[i]) })
+	if os.Getenv("C08_SKIP_A") != "" {
+		cases = nil
+	}
+	slow := os.Getenv("C08_SLOW") != ""
+	ev.Par(len(cases), ncpu-nWorkers, func(i int) {
+		t := time.Now()
+		h.runValueCase(cases[i], i)
+		if d := time.Since(t); slow && d > 300*time.Millisecond {
+			fmt.Fprintf(os.Stderr, "slow case %s/%s idx=%d: %v\n", cases[i].cmd, cases[i].label, cases[i].di, d)
+		}
+	})
 	h.runAddrV2Spec()
 	for i, blk := range st.realBlocks {
 		blk := blk
@@ -551,9 +616,9 @@ func main() {
 		r.Trace(1)
 		r.Add("a_real_block_cases", 1)
 		r.Nontrivial(fmt.Sprintf("realblock|%d", i))
-		raw, _ := rw.Encode(rw.BlockFields, blk, rw.Ctx{Witness: true})
+		raw := rw.EncodeBytes(rw.BlockFields, blk, rw.Ctx{Witness: true})
 		h.report("realblock", "block", rw.Ctx{Witness: true}, fmt.Sprintf("shipped-block-%d", i), hash8(raw), fs,
-			func() []finding { return checkBlockExtras(blk) }, aReplay{Part: "a", Sub: "realblock", Cmd: "block", Raw: hex.EncodeToString(raw)})
+			func() []finding { return checkBlockExtras(blk) }, func() aReplay { return aReplay{Part: "a", Sub: "realblock", Cmd: "block", Raw: hex.EncodeToString(raw)} })
 		vc := &valCase{cmd: "block", v: blk, label: "real", big: true}
 		for _, c := range []rw.Ctx{{Pver: latest}, {Pver: latest, Witness: true}} {
 			c := c
@@ -562,7 +627,7 @@ func main() {
 			r.Trace(1)
 			h.report("realblock-msg", "block", c, fmt.Sprintf("shipped-block-%d", i), hash8(raw), fs,
 				func() []finding { return append(checkValue(vc, c), checkFraming(vc, c, wire.MainNet)...) },
-				aReplay{Part: "a", Sub: "realblock", Cmd: "block", Raw: hex.EncodeToString(raw)})
+				func() aReplay { return aReplay{Part: "a", Sub: "realblock", Cmd: "block", Raw: hex.EncodeToString(raw)} })
 		}
 	}
 	rcs := rawCases(full)
@@ -574,7 +639,7 @@ func main() {
 		r.Add("a_huge_count_cases", 1)
 		r.Nontrivial("raw|" + rc.label)
 		h.report("raw", "tx/block", rc.c, rc.label, "", fs, func() []finding { return checkRaw(rc) },
-			aReplay{Part: "a", Sub: "raw", Label: rc.label, Pver: rc.c.Pver, Witness: rc.c.Witness})
+			func() aReplay { return aReplay{Part: "a", Sub: "raw", Label: rc.label, Pver: rc.c.Pver, Witness: rc.c.Witness} })
 		runtime.GC()
 	}
 	aWall := time.Since(t0).Seconds()
@@ -617,6 +682,7 @@ func main() {
 		"core_tx_vectors": st.txVectors, "of_which_witness": st.txVectorsWitness,
 	})
 	r.Set("part_a_wall_s", aWall)
+	pprof.StopCPUProfile()
 	exemptions, _ := json.Marshal(exemptionList)
 	r.Set("canonicity_exemptions", json.RawMessage(exemptions))
 	r.Finish(true)
